@@ -68,11 +68,42 @@ type verCase struct {
 	Msize   uint32 `json:"msize"`
 	Version []byte `json:"version"`
 	Tag     uint16 `json:"tag"`
+	// Prior: Tversion requests sent earlier on the same connection (each is
+	// judged like the last one: the answer depends on the request alone)
+	Prior []verCase `json:"prior,omitempty"`
 }
 
 func runVerCase(c verCase) *fail {
 	s := peers.Start(p9.NewServer(nullAttacher{}))
 	defer s.Close(10 * time.Second)
+	limit := uint64(maxMsize) // the frame limit in force: a later Tversion frame above it legitimately ends the connection
+	for i, pc := range c.Prior {
+		if uint64(7+4+2+len(pc.Version)) > limit {
+			return nil
+		}
+		if f := judgeVersion(s, pc); f != nil {
+			f.Msg = fmt.Sprintf("Tversion %d of %d on one connection: %s", i+1, len(c.Prior)+1, f.Msg)
+			return f
+		}
+		if kind, _ := refParseVersion(string(pc.Version)); kind != "invalid" && pc.Msize != 0 {
+			limit = min(uint64(pc.Msize), maxMsize)
+			if kind == "unsettled" {
+				limit = 0 // either reading was allowed: stop judging what follows
+			}
+		}
+	}
+	if uint64(7+4+2+len(c.Version)) > limit {
+		return nil
+	}
+	f := judgeVersion(s, c)
+	if f != nil && len(c.Prior) > 0 {
+		f.Sig += ":renegotiated"
+		f.Msg = fmt.Sprintf("Tversion %d of %d on one connection: %s", len(c.Prior)+1, len(c.Prior)+1, f.Msg)
+	}
+	return f
+}
+
+func judgeVersion(s *peers.Session, c verCase) *fail {
 	req := refcodec.New(refcodec.Tversion, c.Tag, "msize", c.Msize, "version", string(c.Version))
 	raw, err := s.RPC(refcodec.Encode(req))
 	if err != nil {
@@ -431,12 +462,36 @@ func TestC12(t *testing.T) {
 		if rapid.IntRange(0, 9).Draw(rt, "tagk") == 0 {
 			c.Tag = rapid.Uint16().Draw(rt, "tag")
 		}
+		// a third of the cases renegotiate: 1-2 earlier Tversion requests on the same connection
+		if rapid.IntRange(0, 2).Draw(rt, "reneg") == 0 {
+			for k := rapid.IntRange(1, 2).Draw(rt, "nprior"); k > 0; k-- {
+				pc := verCase{Tag: refcodec.NOTAG}
+				switch rapid.IntRange(0, 3).Draw(rt, "pmk") {
+				case 0:
+					pc.Msize = c.Msize // the same limit again, another version
+				case 1:
+					pc.Msize = rapid.SampledFrom([]uint32{64, 8192, 65536, maxMsize, maxMsize + 1}).Draw(rt, "pmsz")
+				default:
+					pc.Msize = genMsize(rt)
+				}
+				if rapid.IntRange(0, 3).Draw(rt, "pvk") == 0 {
+					pc.Version = genVersionString(rt)
+				} else {
+					pc.Version = []byte(refVersionString(uint64(rapid.IntRange(0, 9).Draw(rt, "pn"))))
+				}
+				c.Prior = append(c.Prior, pc)
+			}
+		}
 		return c
 	}, func(c verCase) *fail {
 		f := runVerCase(c)
 		kind, n := refParseVersion(string(c.Version))
 		canonical := kind == "valid" && string(c.Version) == refVersionString(n)
-		h.Case(evid.HashJSON(c), !canonical, "server:"+kind)
+		cls := "server:" + kind
+		if len(c.Prior) > 0 {
+			cls = "server:renegotiation:" + kind
+		}
+		h.Case(evid.HashJSON(c), !canonical || len(c.Prior) > 0, cls)
 		if c.Msize == 0 {
 			h.Count("server:msize0", 1)
 		}
